@@ -64,6 +64,54 @@ def observe_config(c: dict) -> dict:
     return out
 
 
+def enforcement(res: Result, req: dict, identical: set):
+    """The published unit and bounds are the ones the reader enforces: for every numeric parameter defined identically everywhere, the
+    schema's minimum and maximum written WITH the schema's unit are accepted and stored as written, and the next doubles outside are
+    refused (the real Model() + read_parameters; judged by TraceReadParam.tla).  A read that dies inside the unit machinery is C06's
+    business and is counted, not judged."""
+    import math
+    from fractions import Fraction
+    from .c07 import enumerate_family, factor_of, family_bases
+    from .common import rat
+    jobs, seen = [], set()
+    for lst in sim.call_in_pool('harness.c07:enumerate_family', family_bases()):
+        for j in lst:
+            n = j['name']
+            if n in seen or n not in req or n not in identical or j['label'] != 'min' or j['p']['kind'] != 'float' or j['family'] == 'hip_ra_x':
+                continue
+            sc = req[n]
+            u, lo, hi = sc.get('units'), sc.get('minimum'), sc.get('maximum')
+            if not isinstance(u, str) or not u.strip() or not all(isinstance(x, (int, float)) and not isinstance(x, bool) for x in (lo, hi)):
+                continue
+            if not (abs(lo) < 1e12 and abs(hi) < 1e12):
+                continue
+            seen.add(n)
+            for label, x in (('schema_min', float(lo)), ('schema_max', float(hi)), ('schema_below_min', math.nextafter(float(lo), -math.inf)),
+                             ('schema_above_max', math.nextafter(float(hi), math.inf))):
+                jobs.append(dict(j, label=label, text=f'{x!r} {u}', v=rat(x)))
+    outs = sim.call_in_pool('harness.c07:run_case', jobs)
+    traces = [{'tid': k + 1, 'name': o['name'], 'text': o['text'], 'p': o['p'], 'v': o['v'], 'outcome': o['outcome'], 'named': bool(o['named']),
+               'after': o['after'], 'factor': factor_of(o['family'], o['name'])} for k, o in enumerate(outs)]
+    vd, ds, gs = tlc.validate_traces('TraceReadParam', 'TraceReadParam.cfg', traces)
+    res.states += ds
+    res.transitions += gs
+    res.traces += len(traces)
+    n_judged = 0
+    for t, o in zip(traces, outs):
+        res.case(f"enforce:{o['name']}:{o['label']}")
+        if o['outcome'] == 'other' or (o['outcome'] == 'rejected' and 'outside of valid range' not in (o['error'] or '') and o['label'] in ('schema_min', 'schema_max')):
+            res.count('enforcement_reads_that_died_in_the_unit_machinery')
+            continue
+        n_judged += 1
+        bad = [c for c in vd[t['tid']]['f'] if c.startswith('C07_')]
+        if bad:
+            res.violation({'clause': 'C19_enforced', 'item': o['name'], 'case': o['label']},
+                          f"C19_enforced: '{o['name']}, {o['text']}' (schema unit and bound) -> {o['outcome']} (stored {o['after']}, error={o['error']}): {bad}",
+                          {'line': f"{o['name']}, {o['text']}", 'family': o['family'], 'outcome': o['outcome'], 'after': o['after'], 'error': o['error']})
+    res.cov['enforcement_cases_judged'] = n_judged
+    return n_judged
+
+
 def live_declarations():
     """Worker (run once): every source class the simulator can instantiate -> its live ParameterDict declarations."""
     bind_repo()
@@ -244,6 +292,7 @@ def run(tier: str, only_key: dict | None = None) -> int:
         s = req[n]
         attrs.append({'name': n, 'schema': {'type': s.get('type'), 'units': s.get('units'), 'default': jnum(s.get('default')),
                                             'min': jnum(s.get('minimum')), 'max': jnum(s.get('maximum'))}, 'live': lst[0]})
+    enforcement(res, req, {a['name'] for a in attrs})
     committed = [{'file': f, 'equal': live['committed'].get(f) == g} for f, g in live['generated'].items()]
     committed += [{'file': f + ' (generated after simulations ran in the same process)', 'equal': live['committed'].get(f) == g}
                   for f, g in live.get('generated_warm', {}).items()]
